@@ -9,7 +9,7 @@ META = {
              '(record length class, size class, outcome); non-trivial when a record body is < 12 bytes, the record '
              'length is < 32 or >= 16382, a name has >= 128 characters, or a body exceeds 3 capacities'),
     'required_obs': {'quick': ['body-lt-12', 'mx-20..30', 'mx-32', 'mx-16384', 'name-255', 'body-gt-3cap',
-                               'write-ok', 'odd-body', 'row-ge-64KiB', 'row-ge-1MiB', 'file-decoded', 'name-255']},
+                               'write-ok', 'odd-body', 'row-ge-64KiB', 'row-ge-1MiB', 'file-decoded', 'name-255', 'record-count-grid', 'record-count-grid-multi-lf', 'declared-record-count-checked']},
     'exhaustive_windows': {
         'quick': ['every even record length 20..256 and a stride sample above, with a fixed small specification'],
         'thorough': ['every even record length 20..16384 (8183 values) with a fixed small specification',
@@ -60,6 +60,11 @@ def cases(tier, seed):
     for wb in wide:
         yield {'stratum': 'huge-row', 'index': i, 'kind': 'huge', 'width': wb, 'mx': 16384 if (wb % 2 or wb > 2 ** 22) else 8192}
         i += 1
+    # numbers of records: K logical files x N rows (x an empty set left by a rejected call x no-format records) -- how many
+    # records a file has is a size coincidence as well
+    for K in ([1, 2, 3, 4] if tier == 'quick' else [1, 2, 3, 4, 5, 7, 10]):
+        yield {'stratum': 'record-count-grid', 'index': i, 'kind': 'count-grid', 'K': K, 'Ns': list(range(1, 17 if tier == 'quick' else 70))}
+        i += 1
     for k in range(60 if tier == 'quick' else 1500):
         yield {'stratum': 'random', 'index': k, 'kind': 'random'}
 
@@ -93,6 +98,14 @@ def run_case(case):
             bump('raised:' + mech)
             return
         bump('write-ok')
+        if getattr(run, 'declared_mismatch', None):
+            # the write loop was promised another number of records than it got: the progress display aborts the write
+            # whenever it happens to refresh beyond the promised number (which depends on the record count and on timing)
+            d_, n_ = run.declared_mismatch[0]
+            vio.append({'prop': PROP, 'kind': 'declared-record-count', 'mech': 'declared-record-count',
+                        'detail': f'{what}: {d_} records announced to the write loop, {n_} passed through it'})
+        else:
+            bump('declared-record-count-checked')
         # "written successfully": the file must be well-formed physically AND every record must come back whole
         oracle.check_c01(run)
         oracle.check_c02(run)
@@ -189,6 +202,29 @@ def run_case(case):
             if width * (1 if dtype == '|u1' else 4) >= 2 ** 20:
                 bump('row-ge-1MiB')
             judge(run, f'huge:{mx}:{dtype}:{wb}', f'frame rows of {width} x {dtype} ({wb} bytes), record length {mx}, default input chunk size')
+    elif k == 'count-grid':
+        K = case['K']
+        r = gen.rng(seed, PROP, case['stratum'], case['index'])
+        for N in case['Ns']:
+            for variant in ('plain', 'rejected-call', 'no-format'):
+                sp = gen.base_spec(8192, lfs=[{'fh_id': f'LF{j}'} for j in range(K)])
+                sp['write'] = {'output_chunk_size': 2 ** 16}
+                for j in range(K):
+                    ops = sp['ops']
+                    ops.append(gen.origin_op(f'ORIGIN-{j}', lf=j, fsn=j + 1)); ops[-1]['set_name'] = f'LF{j}'
+                    ops.append(gen.channel_op(f'CH-{j}', '|u1', (N,), lf=j, fill={'kind': 'pos', 'tag': j})); ops[-1]['set_name'] = f'LF{j}'
+                    ops.append(gen.frame_op(f'FRAME-{j}', [len(ops) - 1], lf=j)); ops[-1]['set_name'] = f'LF{j}'
+                if variant == 'rejected-call':
+                    ops.append({'op': 'zone', 'lf': 0, 'name': 'REJECTED', 'set_name': 'LF0', 'attrs': {'domain': 'NOT-A-DOMAIN'}, 'expect': 'reject'})
+                elif variant == 'no-format':
+                    ops.append(gen.nf_op('NF', lf=K - 1)); ops[-1]['set_name'] = f'LF{K - 1}'
+                    for q in range(r.choice([1, 2, 3])):
+                        ops.append(gen.nf_data_op(len(ops) - 1 - q, b'x' * q, lf=K - 1))
+                run = harness.execute(sp, want_taps=False)
+                bump('record-count-grid')
+                if K > 1:
+                    bump('record-count-grid-multi-lf')
+                judge(run, f'count:{K}:{N}:{variant}', f'{K} logical file(s) x {N} rows ({variant})')
     elif k == 'writer':
         mx = case['mx']
         cap = mx - 8
